@@ -141,7 +141,7 @@ func rawOrigin(r *hk.Run, rng *hk.Rand) {
 		in := map[string]interface{}{"N": N, "script": sc, "method": method, "client_cookies": withCookies, "client_form": withForm, "dump_trace": withDump, "body": bodyKind, "custom_condition": useCond}
 		tag := fmt.Sprintf("[raw,ccookies=%v,cform=%v,body=%s]", withCookies, withForm, bodyKind)
 		if pan != "" {
-			r.Fail(hk.Failure{Sig: "raw:panic" + tag, What: "call panicked or hung", Input: in, Got: pan})
+			failCapped(r, hk.Failure{Sig: "raw:panic" + tag, What: "call panicked or hung", Input: in, Got: pan})
 			continue
 		}
 		// expected number of attempts from the property's rule
@@ -160,7 +160,7 @@ func rawOrigin(r *hk.Run, rng *hk.Rand) {
 			}
 		}
 		if len(obs) != want {
-			r.Fail(hk.Failure{Sig: "raw:attempts:count" + tag, What: "number of requests received by the origin differs from the property's rule", Input: in, Got: len(obs), Want: want})
+			failCapped(r, hk.Failure{Sig: "raw:attempts:count" + tag, What: "number of requests received by the origin differs from the property's rule", Input: in, Got: len(obs), Want: want})
 		} else {
 			for k := 1; k < len(obs); k++ {
 				a, b := obs[0], obs[k]
@@ -168,17 +168,17 @@ func rawOrigin(r *hk.Run, rng *hk.Rand) {
 					a, b = rawCanonMP(a), rawCanonMP(b)
 				}
 				if a != b {
-					r.Fail(hk.Failure{Sig: "raw:identical" + tag, What: fmt.Sprintf("attempt %d received by the origin differs from attempt 0", k), Input: in, Got: b, Want: a})
+					failCapped(r, hk.Failure{Sig: "raw:identical" + tag, What: fmt.Sprintf("attempt %d received by the origin differs from attempt 0", k), Input: in, Got: b, Want: a})
 					break
 				}
 			}
 			last := sc[len(obs)-1]
 			if last == 0 {
 				if rerr == nil {
-					r.Fail(hk.Failure{Sig: "raw:final" + tag, What: "last attempt failed but no error returned", Input: in})
+					failCapped(r, hk.Failure{Sig: "raw:final" + tag, What: "last attempt failed but no error returned", Input: in})
 				}
 			} else if rerr != nil || resp.StatusCode != last {
-				r.Fail(hk.Failure{Sig: "raw:final" + tag, What: "final response is not the last attempt's", Input: in, Got: fmt.Sprint(rerr), Want: last})
+				failCapped(r, hk.Failure{Sig: "raw:final" + tag, What: "final response is not the last attempt's", Input: in, Got: fmt.Sprint(rerr), Want: last})
 			}
 		}
 		r.Count("raw.programs")
